@@ -432,8 +432,8 @@ where
         let h = self.height();
 
         self.command(spi, Command::TconResolution)?;
-        self.send_data(spi, &[h as u8])?;
-        self.send_data(spi, &[w as u8])
+        self.send_data(spi, &[w as u8])?;
+        self.send_data(spi, &[h as u8])
     }
 
     /// PowerOn command
